@@ -105,9 +105,10 @@ def jobs_simple(prop, profile="general", matrix=None, miri_tables=None):
         js.append(scale("scale", prop, "dbg", n // 80, extra=sx))
         js.append(scale("scale", prop, "rel", n // 20, extra=sx))
         js.append(scale("scale", prop, "asan", n // 320, extra=sx))
-        if prop in ("C04", "C05"):
-            js.extend(dfault_jobs(prop, n, profile))
-            js.append(scale("scale-destructor-panics", prop, "rel", n // 40, extra=["--dfaults", "--twin", "--own", "C01,C02,C03,C04,C05"]))
+        if prop in ("C02", "C04", "C05"):
+            js.extend(dfault_jobs(prop, n if prop != "C02" else n // 2, profile))
+            if prop != "C02":
+                js.append(scale("scale-destructor-panics", prop, "rel", n // 40, extra=["--dfaults", "--twin", "--own", "C01,C02,C03,C04,C05"]))
         if prop == "C04":
             # every payload form of the builders x every way of dying (layoutmon table `lifecycle`)
             big = ["--big"] if tier == T else []
@@ -258,14 +259,14 @@ CHECKS = {
         level="exploration",
         jobs=jobs_c01,
         rule="seeded random histories (20-80 ops over <=16 live objects of 12 kinds, all collection methods incl. single-object steps, 4 pacing modes) plus the barrier scenario matrix; a history is non-trivial when it stored a pointer while the arena was not Sleeping and a later collection released something; distinct = distinct op lists (FNV hash)",
-        floors={"evaluations": {Q: 50_000, T: 500_000}, "derefs_checked": 100_000, "free_events": 10_000},
+        floors={"evaluations": {Q: 50_000, T: 500_000}, "derefs_checked": 100_000, "free_events": 10_000, "callbacks_with_gray_queue_over_128": 100, "max_gray_queue_seen": 257, "max_gray_again_seen": 257},
         assumptions=COMMON_ASSUME,
     ),
     "C02": dict(
         level="exploration",
         jobs=jobs_simple("C02"),
         rule="random histories with audit points (finish_cycle x2) placed in every phase; non-trivial = at least one audit ran after something was released; oracle compares destructor log, allocator registry and total_gc_count with shadow reachability + weakly held shells",
-        floors={"audits": 20_000},
+        floors={"audits": 20_000, "injected_panics_caught": 2_000},
         assumptions=COMMON_ASSUME,
     ),
     "C03": dict(
@@ -279,14 +280,14 @@ CHECKS = {
         level="fault_enumeration",
         jobs=jobs_simple("C04", matrix=["c04"], miri_tables=["c04"]),
         rule="histories ending in arena drop at every phase; per object: token count == 1, block released once with the requested layout, count reads 0 after drop; non-trivial = something was released before the drop and the arena was dropped",
-        floors={"free_events": 10_000},
+        floors={"free_events": 10_000, "injected_panics_caught": 5_000, "lifecycle_destructor_checks": 150, "destructor_panics_in_.*": 5_000},
         assumptions=COMMON_ASSUME,
     ),
     "C05": dict(
         level="exploration",
         jobs=jobs_simple("C05", profile="weak", matrix=["c06"], miri_tables=["c06"]),
         rule="weak-heavy random histories + weak rows of the barrier matrix; every upgrade/is_dropped judged against destructor log, reachability and phase; non-trivial = upgrades performed and something released",
-        floors={"is_dropped_checks": 50_000, "upgrade_.*": 10_000},
+        floors={"is_dropped_checks": 50_000, "upgrade_.*": 10_000, "destructor_panics_in_.*": 5_000},
         assumptions=COMMON_ASSUME,
     ),
     "C06": dict(
@@ -344,7 +345,7 @@ CHECKS = {
         level="exploration",
         jobs=jobs_simple("C14", profile="roots"),
         rule="dynamic-root-heavy random histories (stash/clone/drop/fetch, slot reuse, handles outliving the arena); non-trivial = stash plus fetch or handle drop",
-        floors={"stash_.*": 5_000},
+        floors={"stash_.*": 5_000, "max_live_handles_in_one_set": 257},
         assumptions=COMMON_ASSUME,
     ),
     "C20": dict(
@@ -358,7 +359,7 @@ CHECKS = {
         level="exploration",
         jobs=jobs_lay("C17", "layouts"),
         rule="macro-generated grid: 11 alignments x up to 9 sizes of sized values (with and without a token prefix), 9 header layouts x 9 element layouts x lengths {0,1,2,5,17,seeded} of header-plus-slice and plain slices, str lengths, per-type metadata; each value: alignment, extent inside its block behind the bookkeeping words, byte pattern + address re-read (and rewritten) across 3-4 rounds of collections with neighbours freed, fat/thin/raw round trips, release layout equality (tracking allocator), red zones; non-trivial = non-empty value",
-        floors={"geometry_checks": 1_000, "pattern_checks": 1_500},
+        floors={"geometry_checks": 1_000, "pattern_checks": 1_500, "custom_ptr_meta_values": 9},
         assumptions=COMMON_ASSUME + ["header size 16 bytes and one length word in front of it for slice kinds are read off gc_ptr.rs; a layout refactor that changes them turns the 'bookkeeping precedes the value' check into an alarm to review"],
     ),
     "C18": dict(
@@ -373,7 +374,7 @@ CHECKS = {
         jobs=jobs_lay("C19", "convert"),
         custom=probes("C19"),
         rule="seeded conversion chains (length 1-8) over sized, trait-object, array->slice, slice, str targets using erase, erase_kind, downgrade/upgrade, unsize!, as_thin/as_fat, raw round trips, stash/fetch, allocated in a seeded phase; identity and value at every step, survival with only the converted pointer rooted, destructed exactly once after; ZstCache<1..64> x ZST alignments 1..64 (+ non-ZSTs); non-trivial = chain of >= 2 steps",
-        floors={"chains": 1_000, "zst_cache_checks": 100},
+        floors={"chains": 1_000, "zst_cache_checks": 100, "zst_destructor_checks": 35},
         assumptions=COMMON_ASSUME + ["the 'no conjured values' half is decided by the conjuring probes"],
     ),
     "C15": dict(
